@@ -198,3 +198,28 @@ Example expected_constants :
   forallb (fun c => Nat.ltb 0 (snd c)) constants = true /\
   forallb (fun c => if String.eqb (fst c) "split" || String.eqb (fst c) "feedRoot" then Nat.eqb (snd c) 0 else Nat.eqb (snd c) 1) err_channel_capacity = true.
 Proof. split; reflexivity. Qed.
+
+(* what the LTS assumes about WHEN channels are closed and WHEN the call returns, re-checked on the
+   generated tables: a goroutine literal closes channels only in deferred functions (so a stage's
+   channels close when its starter returns -- for a pool, after wg.Wait(), the last statement of the
+   starter: step_closer requires all workers done), and handlePipelineErr waits for the readers,
+   then cancels, then drains every error channel, and only then returns (D24; Proofs/PipeStrictReturn.v) *)
+Definition is_pool_starter (lit : string) : bool :=
+  match find_fn lit inventory with
+  | Some (_, _, _, _, _, _, _, _, _, wc) => negb (String.eqb wc "")
+  | None => false
+  end.
+
+Definition closing_ok_b : bool :=
+  forallb (fun c => match c with
+                    | (lit, deferred, inline, waits_last) =>
+                        Nat.ltb 0 deferred && Nat.eqb inline 0 && (negb (is_pool_starter lit) || waits_last)
+                    end) closing
+  && forallb (fun e => match e with (fnm, lits, _) =>
+                forallb (fun l => existsb (fun c => match c with (lit, _, _, _) => String.eqb lit l end) closing) lits end) starts.
+
+Theorem closing_discipline : closing_ok_b = true.
+Proof. vm_compute. reflexivity. Qed.
+
+Theorem main_waits_cancels_drains : main_facts = (true, true, true).
+Proof. reflexivity. Qed.
